@@ -1,4 +1,5 @@
 import Toq.Model.MatrixOps
+import Toq.Core.EMat
 /-!
 # Exact three-valued deciders of the matrix and state-set predicates of `toqito/matrix_props/is_*.py`
 and `toqito/state_props/is_{pure,mixed,ensemble,mutually_orthogonal,mutually_unbiased_basis,
@@ -212,6 +213,26 @@ def isPDExact (n : Nat) (M : QMat) : Bool := Id.run do
       let t := A.get i k * inv
       if t != 0 then A := rowSubMul A i k t
   return true
+
+/-! ## verified certificates for the definiteness verdicts
+
+The elimination above is not verified; the harness therefore also sends a certificate for every
+definiteness verdict it uses, and these two checkers are proved sound (`Toq.C16.psd_certificate_sound`,
+`Toq.C16.not_psd_certificate_sound`). -/
+
+/-- the entries of a `Mat QI` as an `EMat` -/
+def toEMat (A : Mat QI) (n m : Nat) : EMat n m := EMat.ofFn fun i j => A.f i.val j.val
+
+/-- diagonal matrix with rational entries -/
+def diagE {n : Nat} (D : Fin n → Rat) : EMat n n := EMat.ofFn fun i j => if i = j then QI.ofRat (D i) else 0
+
+/-- verified PSD certificate: `A = L·diag(D)·Lᴴ` exactly with `D ≥ 0` -/
+def psdCertLDL {n : Nat} (A L : EMat n n) (D : Fin n → Rat) : Bool :=
+  EMat.allFin n (fun i => decide (0 ≤ D i)) && A.beq (L.mul ((diagE D).mul L.ct))
+
+/-- verified certificate that `A + μ·I` is not PSD (`λ_min(A) < -μ`): a vector with `xᴴ (A + μ I) x < 0` -/
+def npsdCert {n : Nat} (A : EMat n n) (x : EMat n 1) (μ : Rat) : Bool :=
+  decide (((x.ct.mul ((A + EMat.scalar μ).mul x)).get ⟨0, by omega⟩ ⟨0, by omega⟩).re < 0)
 
 /-! ## definiteness-type predicates -/
 
